@@ -2,8 +2,12 @@
 cancellation for small constants; the slot formula on 3-bit two's-complement integers), three
 named deviations as non-vacuity witnesses, liveness under fairness; plans from TLC simulation and
 seeded schedules executed step by step on the real line.Line / mline.MultiLine / async.RunnerQ /
-async.ProcChan with global quiescence, plus free-running stress; every recorded trace validated
-by Lanes_Trace (acceptance order, skips, lane closing and lane exit inferred by TLC)."""
+async.ProcChan with global quiescence, plus free-running stress and life-cycle rounds (every order
+of calls / Run / Stop on a fresh executor, sequential and released together by a spin barrier; each
+termination signal - wait group, WaitStop - watched by a goroutine of its own that logs `term`);
+every recorded trace validated by Lanes_Trace (acceptance order, skips, lane closing and lane exit
+inferred by TLC).  Panics in Run/Stop, a callee entered with a parameter nobody submitted and a
+process death inside neptune are events of their own kind that the spec rejects."""
 
 from vlib import MachineryError, log
 
@@ -36,13 +40,13 @@ def run(ctx):
         mc(ctx, fam, "Lanes", "Lanes_MC_big.cfg", workers=16, timeout=3000, heap="16g")
         mc(ctx, fam, "Lanes", "Lanes_MC_big_mline.cfg", workers=16, timeout=3000, heap="16g")
         mc(ctx, fam, "Lanes", "Lanes_MC_big4.cfg", workers=16, timeout=3000, heap="16g")
-    pdir, plans = ctx.tlc_plans(fam, "Lanes_Gen", "Lanes_Gen.cfg", num=ctx.q(200, 5000), depth=44)
+    pdir, plans = ctx.tlc_plans(fam, "Lanes_Gen", "Lanes_Gen.cfg", num=ctx.q(200, 3500), depth=44)
     binary = ctx.go_build("c14")
     tfile = ctx.path("traces.ndjson")
     # one trace file, flushed per event: if the process dies inside neptune, vlib appends a `crash`
     # event to the history that led to it and the spec rejects it
-    ctx.harness(binary, ["-plans", pdir, "-out", tfile, "-seed", ctx.seed, "-rand", ctx.q(48, 1500),
-                         "-nstress", ctx.q(16, 600), "-nlife", ctx.q(112, 2800)],
+    ctx.harness(binary, ["-plans", pdir, "-out", tfile, "-seed", ctx.seed, "-rand", ctx.q(48, 800),
+                         "-nstress", ctx.q(16, 300), "-nlife", ctx.q(112, 1120)],
                 timeout=2400, traces=[tfile])
     alltr = ctx.load_traces(tfile)
     mode = lambda t: t[0]["src"].split(":")[0]
@@ -51,11 +55,9 @@ def run(ctx):
     stress = [t for t in alltr if mode(t) == "stress"]
     if len(steps) + len(life) + len(stress) != len(alltr):
         raise MachineryError("trace with an unknown src")
-    rj = ctx.validate(fam, "Lanes_Trace", "Lanes_Trace.cfg", life, label="life", chunk=8000,
+    rj = ctx.validate(fam, "Lanes_Trace", "Lanes_Trace.cfg", life + stress, label="free-running", chunk=6000,
                       max_rejections=8)
     rj += ctx.validate(fam, "Lanes_Trace", "Lanes_Trace.cfg", steps, label="steps", chunk=20000,
-                       max_rejections=8)
-    rj += ctx.validate(fam, "Lanes_Trace", "Lanes_Trace.cfg", stress, label="stress", chunk=4000,
                        max_rejections=8)
     ctx.judge(rj, describe=describe)
     ctx.extra["plans"] = len(plans)
@@ -70,7 +72,11 @@ def run(ctx):
     ctx.assumptions += [
         "global quiescence is read from runtime.Stack wait reasons (internal/qx)",
         "`alive` = some goroutine other than this harness's callers has a frame of the executor's package on its "
-        "stack (no function name assumed); `term` = the owner's sync.WaitGroup / WaitStop has returned",
+        "stack (no function name assumed); a `term` event = one of the owner's termination signals "
+        "(sync.WaitGroup after Run returned; MultiLine.WaitStop / RunnerQ.WaitStop at any time) has returned; "
+        "ProcChan.WaitStop is not used as a termination signal (it returns when Stop is called)",
+        "queue size options outside TLC's range are carried clamped (MaxInt as 1000000, negative = unbounded "
+        "as 0, option not given as 8192)",
         "events are logged in an order consistent with real time (inv/cancel/stopi before, ret/stopr after "
         "the call; start/end by the callee itself), so an overlap or inversion in the log is real",
         "the trace spec leaves open: hash->lane map (any function into [0,lanes), learned from IndexOf or first "
@@ -82,7 +88,13 @@ def run(ctx):
              "MinInt+1, MaxInt, +-lanes; Stop by the owner or by the callee of a running call, before or after "
              "Run), each applied to line/mline/runq/pchan in turn + seeded schedules (12 calls, queue sizes "
              "0,1,2,8, random 63-bit hashes, same-hash bursts that fill a lane, submissions right behind Stop) + "
-             "free-running stress (2-4 callers, concurrent cancel, Stop from a goroutine or from a callee). Stop "
+             "free-running stress (2-4 callers, concurrent cancel, Stop from a goroutine or from a callee, a reader "
+             "of the getters) + life-cycle rounds (14 families: the six orders of calls/Run/Stop with quiescence "
+             "between, and calls, Run, Stop, Run+Stop back to back released together by a spin barrier; Stop twice, "
+             "Run twice where guarded by a once, WaitStop from the very beginning; every family on every executor). "
+             "Further plan dimensions: queue size -1 / MaxInt / option not given, lanes 1..7, RunnerQ without wait "
+             "group, callee returning value and error together, a running callee submitting a call to its own "
+             "executor (released through that call's context if it queued behind itself), getters as events. Stop "
              "is never called on the driver: `stopr` is logged when it returns, a parked Stop is legal until the "
              "final quiescent point (consumers started, Stop called, every gate opened), where Final must hold",
         explanation="callee start/end with the lane index handed over, every caller's reply, and at each quiescent "
